@@ -130,14 +130,18 @@ def grep_forbidden(paths):
 
 
 def lean_sources_of(prop):
-    """Files that make up the proof of a property: BlugeProofs/<P>.lean, BlugeProofs/<P>/**, Bluge/<P>*, BlugeGen/<P>.lean + shared."""
+    """Files that make up the proof of a property: BlugeProofs/<P>.lean, BlugeProofs/<P>/**, BlugeGen/<P>.lean,
+    Drv/<P>.lean and the shared models under Bluge/ (another property's unfinished proof files are not ours)."""
     out = []
-    for base in ("BlugeProofs", "Bluge", "BlugeGen", "Drv"):
-        d = os.path.join(LEAN, base)
+    for base in ("BlugeProofs", "BlugeGen", "Drv"):
+        f = os.path.join(LEAN, base, prop + ".lean")
+        if os.path.exists(f):
+            out.append(f)
+        d = os.path.join(LEAN, base, prop)
         for dp, dn, fn in os.walk(d):
-            for f in fn:
-                if f.endswith(".lean"):
-                    out.append(os.path.join(dp, f))
+            out += [os.path.join(dp, x) for x in fn if x.endswith(".lean")]
+    for dp, dn, fn in os.walk(os.path.join(LEAN, "Bluge")):
+        out += [os.path.join(dp, x) for x in fn if x.endswith(".lean")]
     return out
 
 
